@@ -38,7 +38,7 @@ theorem stripInv_succ (f : Nat) (ih : StripInv f) : StripInv (f + 1) := by
   · intro st σ
     cases st with
     | defRoutine n ps body => rfl
-    | action k ops => simp only [stripS, execStmt, ih.operands]
+    | action k w ops => simp only [stripS, execStmt, ih.operands]
     | ite c t e =>
       cases e with
       | none => simp only [stripS, execStmt, ih.block]
@@ -86,11 +86,11 @@ mutual
     | .ite c t none, h => by rw [Closed.defsS]; exact defsB_frag t h.2.1
     | .ite c t (some e), h => by rw [Closed.defsS, defsB_frag t h.2.1, defsB_frag e h.2.2]; rfl
     | .repeat_ hd body, h => by rw [Closed.defsS]; exact defsB_frag body h.2
-    | .action k ops, h => by rw [Closed.defsS]; exact defsOps_frag ops h
+    | .action k w ops, h => by rw [Closed.defsS]; exact defsOps_frag ops h
     | .setReg _ _, _ => by rw [Closed.defsS]
     | .units _, _ => by rw [Closed.defsS]
     | .actAll _, _ => by rw [Closed.defsS]
-    | .setDefault, _ => by rw [Closed.defsS]
+    | .setDefault _, _ => by rw [Closed.defsS]
     | .get _, _ => by rw [Closed.defsS]
     | .wait, _ => by rw [Closed.defsS]
     | .timeAt _, _ => by rw [Closed.defsS]
@@ -143,7 +143,7 @@ mutual
         have h1 := h.1
         simp only [stripS, FragStmt] at h1
         simp only [Closed.defsB, Closed.defsS, Sem.collect, ih, defsB_collect body h1.2, List.map_append]
-      | action k ops =>
+      | action k w ops =>
         have h1 := h.1
         simp only [stripS, FragStmt] at h1
         simp only [Closed.defsB, Closed.defsS, Sem.collect, ih, defsOps_collect ops h1, List.map_append]
